@@ -639,7 +639,7 @@ def judge(chk, c, evs):
             # compare modulo 2 pi with the requested angle
             diff = math.atan2(math.sin(swept - ang), math.cos(swept - ang))
             # (the centre is reconstructed from three vertices that span as little as 0.3 rad: its own error is of the order of 1e-7 / angle)
-            if abs(diff) > 1e-6:
+            if abs(diff) > 1e-6 + 8e-7 * max(r, scale) / r:         # (vertices are accepted within 1e-7 max(r, scale) of the circle: so is the centre)
                 report('angle', 'turn sweeps %.9f rad (mod 2 pi), requested %.9f' % (swept, ang))
                 return
             # vertices in order along the arc
